@@ -109,7 +109,8 @@ def gen_case(rng, i, tier):
         "pos": pos,
         "dims": dims,
         "extra": extra,
-        "data": {"kind": "hostile" if rng.random() < 0.12 else "quarter", "seed": rng.getrandbits(31)},
+        "data": {"kind": "hostile" if rng.random() < 0.12 else "quarter", "seed": rng.getrandbits(31),
+                 "dtype": "float32" if rng.random() < 0.08 else "float64"},
         "call": call,
         "name": rng.choice(["v", "temp", None]),
     }
@@ -129,6 +130,8 @@ def make_da(desc, ds):
 
     shape = [ds.sizes[d] for d in desc["dims"]]
     data = gen.make_data(desc["data"]["kind"], desc["data"]["seed"], shape)
+    if desc["data"].get("dtype") == "float32" and desc["data"]["kind"] == "quarter":
+        data = data.astype("float32")  # quarter-integers and all their sums/halves are exact in float32 too
     return xr.DataArray(data, dims=desc["dims"], name=desc.get("name"))
 
 
@@ -223,7 +226,7 @@ def run_case(ctx, desc):
         ctx.judged(ckey, nontrivial)
         ctx.violation("well-posed-call-returns", f"{op} raised {type(e).__name__}: {str(e)[:300]}")
         return
-    exp, exp_dims = expected(desc, da.values, da.dims, opax, to_eff, op)
+    exp, exp_dims = expected(desc, da.values.astype(float), da.dims, opax, to_eff, op)
     ctx.judged(ckey, nontrivial)
     if ctx.evaluations % 50 == 1:
         ctx.sample({"case": desc, "expected_dims": exp_dims, "expected_first_values": np.ravel(exp)[:4]})
@@ -233,7 +236,7 @@ def run_case(ctx, desc):
     if r.shape != exp.shape:
         ctx.violation("shape", f"result shape {r.shape}, expected {exp.shape}")
         return
-    if not close(r.values, exp, kind):
+    if not close(np.asarray(r.values, float), exp, kind):
         bad = np.argwhere(~np.isclose(r.values, exp, rtol=0, atol=0, equal_nan=True))
         w = tuple(bad[0]) if len(bad) else ()
         ctx.violation(
